@@ -11,29 +11,45 @@
 EXTENDS Naturals, Sequences, TLC, Json, IOUtils
 VARIABLES l
 Recs == ndJsonDeserialize(IOEnv.TRACE)
-Clauses == {"Returns", "SucceedsOrFailsAsSpecified", "FailureClassAndUnchanged", "AmountAsDefined", "UnitFromDesignatedList",
+Range(f) == {f[i] : i \in DOMAIN f}
+HasAlts(r) == "alts" \in DOMAIN r.pred
+Clauses == {"Returns", "SucceedsOrFailsAsSpecified", "FailureLeavesUnchanged", "AmountAsDefined", "UnitFromDesignatedList",
             "ApiAgrees", "ThereAndBack", "ViaThirdUnit", "StandardDefinition", "RecipeAmountsPreserved", "RecipeUnitsFromBestList",
-            "RecipeFailuresUnchangedAndReported", "FitPreservesAmount"}
+            "RecipeFailuresUnchangedAndReported", "FitPreservesAmount", "LayeredAmountAsDefined"}
 Holds(c, r) ==
   CASE c = "Returns" -> (r.kind_rec = "model" => r.obs.st # "panic") /\ (r.kind_rec = "recipe" => r.st # "panic")
     [] c = "SucceedsOrFailsAsSpecified" -> (r.kind_rec = "model" /\ r.obs.st # "panic") => ((r.obs.st = "ok") <=> r.pred.ok)
-    [] c = "FailureClassAndUnchanged" -> (r.kind_rec = "model" /\ r.obs.st = "err") => (r.obs.unchanged /\ (~r.pred.ok => r.obs.err = r.pred.err))
-    [] c = "AmountAsDefined" -> (r.kind_rec = "model" /\ r.obs.st = "ok" /\ r.pred.ok /\ r.pred.err = "") => r.obs.close
-    \* which unit of the list is chosen is decided by thresholds; equality with the predicted one is part of "picks a unit from the list
-    \* and preserves the amount" only through the list membership; the predicted unit is compared as well (exact arithmetic on the model)
-    [] c = "UnitFromDesignatedList" -> (r.kind_rec = "model" /\ r.obs.st = "ok" /\ r.pred.ok /\ r.pred.err = "") => r.obs.unit = r.pred.unit
-    [] c = "ApiAgrees" -> (r.kind_rec = "model" /\ r.obs.api # "n/a") => (IF r.pred.ok THEN r.obs.api = "ok" ELSE r.obs.api = r.pred.err)
+    \* which error class a failing conversion reports is not part of the property (drift FailureClassAsSpecified)
+    [] c = "FailureLeavesUnchanged" -> (r.kind_rec = "model" /\ r.obs.st = "err") => r.obs.unchanged
+    \* to a unit: the exact amount in that unit; to a system / fit: the exact amount in whichever unit of the designated list was
+    \* chosen (obs.close_alt: the harness compared the observed numbers with the specification's amount for the observed unit)
+    [] c = "AmountAsDefined" -> (r.kind_rec = "model" /\ r.obs.st = "ok" /\ r.pred.ok /\ r.pred.err = "") =>
+                                   (IF HasAlts(r) THEN r.obs.close_alt ELSE r.obs.close)
+    \* which unit of the list is chosen is decided by thresholds the property does not fix: membership is the clause,
+    \* equality with the predicted unit is drift (BestUnitAsSpecified)
+    [] c = "UnitFromDesignatedList" -> (r.kind_rec = "model" /\ r.obs.st = "ok" /\ r.pred.ok /\ r.pred.err = "") =>
+                                   (IF HasAlts(r) THEN \E a \in Range(r.pred.alts) : a.unit = r.obs.unit ELSE r.obs.unit = r.pred.unit)
+    [] c = "ApiAgrees" -> (r.kind_rec = "model" /\ r.obs.api # "n/a") => (IF r.pred.ok THEN r.obs.api = "ok" ELSE r.obs.api \notin {"ok", "differs", "panic"})
     [] c = "ThereAndBack" -> r.kind_rec = "bundled" => r.back_ok
     [] c = "ViaThirdUnit" -> r.kind_rec = "bundled" => r.via_ok
     [] c = "StandardDefinition" -> (r.kind_rec = "bundled" /\ r.has_std) => r.std_ok
     [] c = "FitPreservesAmount" -> r.kind_rec = "fit" => r.preserved
+    \* a converter CookBuilder predicts to be built from layers converts between every pair of its units by the predicted ratios
+    [] c = "LayeredAmountAsDefined" -> r.kind_rec = "layered" => (r.st = "built" /\ r.bad = 0)
     [] c = "RecipeAmountsPreserved" -> (r.kind_rec = "recipe" /\ r.st = "ok") => r.preserved
     [] c = "RecipeUnitsFromBestList" -> (r.kind_rec = "recipe" /\ r.st = "ok") => r.in_best
     [] c = "RecipeFailuresUnchangedAndReported" -> (r.kind_rec = "recipe" /\ r.st = "ok") => (r.unchanged_failures /\ r.errors = r.failures)
+Details == {"FailureClassAsSpecified", "BestUnitAsSpecified"}
+Agrees(d, r) ==
+  CASE d = "FailureClassAsSpecified" -> (r.kind_rec = "model" /\ r.obs.st = "err" /\ ~r.pred.ok) => r.obs.err = r.pred.err
+    [] d = "BestUnitAsSpecified" -> (r.kind_rec = "model" /\ r.obs.st = "ok" /\ r.pred.ok /\ r.pred.err = "") => r.obs.unit = r.pred.unit
 Failed(r) == {c \in Clauses : ~Holds(c, r)}
+Drift(r) == {d \in Details : ~Agrees(d, r)}
 TInit == l = 1
 TNext == /\ l <= Len(Recs)
-         /\ LET f == Failed(Recs[l]) IN IF f = {} THEN TRUE ELSE PrintT(<<"BAD", l, f>>)
+         /\ LET f == Failed(Recs[l]) d == Drift(Recs[l]) IN
+              /\ IF f = {} THEN TRUE ELSE PrintT(<<"BAD", l, f>>)
+              /\ IF d = {} THEN TRUE ELSE PrintT(<<"NOTE", l, d>>)
          /\ IF l = Len(Recs) THEN PrintT(<<"CONSUMED", l>>) ELSE TRUE
          /\ l' = l + 1
 =============================================================================
